@@ -4,6 +4,8 @@ import (
 	"context"
 	"errors"
 	"fmt"
+	"io"
+	"net"
 	"sync"
 
 	"github.com/avos-io/goat/gen/goatorepo"
@@ -78,6 +80,25 @@ type Link struct {
 
 var ErrLinkClosed = errors.New("sim: link closed")
 var ErrInjected = errors.New("sim: injected transport failure")
+
+// InjectedErr returns one of the errors real transports report when a
+// connection ends (a clean close is io.EOF for framed pipes, wrapped or not).
+func InjectedErr(k int) error {
+	switch k % 6 {
+	case 0:
+		return ErrInjected
+	case 1:
+		return io.EOF
+	case 2:
+		return io.ErrUnexpectedEOF
+	case 3:
+		return fmt.Errorf("read tcp 10.0.0.1:443: %w", io.EOF)
+	case 4:
+		return net.ErrClosed
+	default:
+		return errors.New("connection reset by peer")
+	}
+}
 
 func (e *Env) NewLink(name string, cfg LinkCfg) *Link {
 	if e.Free {
